@@ -1,10 +1,75 @@
-(* C12 - Up-to-date soundness: never skip a task whose last attempt did not succeed.
-   Statements only; proofs are in Fp/Proofs*.v and Fp/Refute.v. *)
+(* C12 - Query and dry-run modes have no side effects.
+   Statements only; proofs are in Fp/ProofsC12.v (and Fp/Refute.v for the witnesses).
+
+   mon_C12 / mon_C12_commute (Fp/Model.v) are the monitors cases.v evaluates on the real
+   binary: a read-only invocation (--dry, --status, --list-all, --list-all --json, --summary)
+   leaves the snapshot (files with mtimes, directories, .task state, trace of executed
+   commands) as it was; and H;R;K shows the same results and snapshots as H;K. *)
 From Coq Require Import List String NArith Bool.
 Import ListNotations.
-From TV Require Import Fp.Model Fp.Refute Extracted.Facts Run.FpCases.
+From TV Require Import Fp.Model Fp.ProofsC12 Fp.Refute Extracted.Facts Run.FpCases.
 
-(* the shapes of the code the model hard-wires (dry wiring, call sites, rollback on a failing command ...) *)
+(* --status implies dry (flags.go), every IsTaskUpToDate call site of RunTask/Status passes e.Dry,
+   the checkers gate their writes on dry: the shapes the model hard-wires *)
 Theorem C12_shape_obligation : fp_shape_ok = true.
 Proof. vm_compute. reflexivity. Qed.
 Print Assumptions C12_shape_obligation.
+
+(* one read-only invocation changes nothing - state, hence files, .task and trace (no command ran) -
+   whenever pure_cond holds: always for --status/--list/--summary; for --dry when the task has no
+   dir: or mkdir is guarded; for --list --json when its check is dry (or nothing is written by checks) *)
+Theorem C12_pure :
+  forall matchb H Hx (v : variant) (p : project) (now : N) (s : state) (m : mode) (tid : nat) (o : outcome),
+    read_only m = true -> pure_cond v p m tid = true ->
+    fst (invoke matchb H Hx v p now s m tid o) = s.
+Proof. exact invoke_pure. Qed.
+Print Assumptions C12_pure.
+
+(* full statement for the repaired variant, over all histories *)
+Theorem C12_no_side_effects :
+  forall matchb H Hx (v : variant) (p : project) (h : list event) (s : state),
+    pure_variant v = true ->
+    mon_C12 (snap_of s) (observe matchb H Hx v p s h) = true.
+Proof. exact mon_C12_repaired. Qed.
+Print Assumptions C12_no_side_effects.
+
+Theorem C12_commutes :
+  forall matchb H Hx (v : variant) (p : project) (s : state) (Hh : list event) (t : N) m tid o (K : list event),
+    read_only m = true -> pure_cond v p m tid = true ->
+    run_hist matchb H Hx v p s (Hh ++ (t, Invoke m tid o) :: K) = run_hist matchb H Hx v p s (Hh ++ K) /\
+    mon_C12_commute (observe matchb H Hx v p s (Hh ++ (t, Invoke m tid o) :: K))
+                    (observe matchb H Hx v p s (Hh ++ K)) (List.length Hh) = true.
+Proof.
+  exact (fun matchb H Hx v p s Hh t m tid o K a b =>
+    conj (run_hist_commutes matchb H Hx v p s Hh t m tid o K a b)
+         (commute_holds matchb H Hx v p s Hh t m tid o K a b)).
+Qed.
+Print Assumptions C12_commutes.
+
+(* the code as it is: what holds (every history whose read-only invocations satisfy pure_cond
+   in the current variant) ... *)
+Theorem C12_partial :
+  forall (p : project) (h : list event) (s : state),
+    forallb (ev_pure current p) h = true ->
+    mon_C12 (snap_of s) (observe gmatch idH hx1 current p s h) = true.
+Proof. exact (mon_C12_holds gmatch idH hx1 current). Qed.
+Print Assumptions C12_partial.
+
+(* ... and what does not *)
+Theorem C12_listjson_refuted :        (* 7.6 *)
+  v_listjson_dry current = false ->
+  exists p h, mon_C12 (snap_of w_init) (observe gmatch idH hx1 current p w_init h) = false.
+Proof. exact (fun a => ex_intro _ _ (ex_intro _ _ (proj2 (listjson_refuted current Checksum a method_cs_ne)))). Qed.
+Print Assumptions C12_listjson_refuted.
+
+Theorem C12_dry_mkdir_refuted :       (* 7.18 *)
+  v_dry_mkdir_guard current = false ->
+  exists p h, mon_C12 (snap_of w_init) (observe gmatch idH hx1 current p w_init h) = false.
+Proof. exact (fun a => ex_intro _ _ (ex_intro _ _ (dry_mkdir_refuted current a))). Qed.
+Print Assumptions C12_dry_mkdir_refuted.
+
+(* non-vacuity: the repaired variant meets pure_variant; a history mixing queries and runs *)
+Example C12_example :
+  pure_variant repaired = true /\
+  forallb (ev_pure current [w_task Checksum]) [(10, Invoke Status 0 AllOk); (12, Invoke Dry 0 AllOk); (14, Invoke Run 0 AllOk)]%N = true.
+Proof. split; vm_compute; reflexivity. Qed.
